@@ -683,6 +683,16 @@ def body_simulate(inp, H, W, ky, kx, normalize, total=None):
 
     A["residual_of_generating_image"] = hx.attempt(fit)
     E["residual_of_generating_image"] = np.zeros(len(pos))
+    # derived datasets keep the PSF that produced the data: the same fit through apply_mask(...).apply_over_sampling(...)
+    def fit_derived():
+        from autoarray.dataset.over_sampling import OverSamplingDataset
+        derived = ds.apply_mask(mask=m).apply_over_sampling(over_sampling=OverSamplingDataset())
+        bm = m.derive_mask.blurring_from(kernel_shape_native=(ky, kx))
+        model = derived.convolver.convolve_image(image=aa.Array2D(values=v.copy(), mask=m), blurring_image=aa.Array2D(values=v.copy(), mask=bm))
+        return derived.data.slim.array - model.slim.array
+
+    A["residual_in_derived_dataset(apply_over_sampling)"] = hx.attempt(fit_derived)
+    E["residual_in_derived_dataset(apply_over_sampling)"] = np.zeros(len(pos))
     # masking history: mask with A first, then re-mask the MASKED dataset with the mask under test (B has pixels outside A):
     # the data of the re-masked dataset must again be the simulated image on B, i.e. zero residual on B
     first_mask = remask_partner(mask, ky, kx)
